@@ -184,6 +184,7 @@ def correspond(ctx, scale):
                 if rng.random() < 0.3:
                     x = x * rng.choice([0.0, 1e-3, 10.0])
                 before = blob(mod)
+                recs = None
                 allowed_uninit = set(never_initted)
                 seed = rng.randrange(10 ** 6)
                 evaluations += 1
